@@ -21,7 +21,12 @@ RULE = ("the generated Stack trees of C18 (random depth/width <= 3, <= 4 thoroug
         "context and as child context; hidden flags everywhere incl. inside contexts) plus 7 real stacks extracted by stackscope "
         "(suspended generator in nested context managers with ExitStack children, suspended coroutine in async with, running thread "
         "with and without contexts, 8-deep await recursion, yield-from recursion, 7-deep running recursion) and trees with runs of 3..8 "
-        "identical consecutive entries (same frame repeated, in inner stacks, repeated contexts; traceback folds > 3 repeats); per tree all 8 (show_contexts, show_hidden_frames, capture_locals) summaries, the 4 "
+        "identical consecutive entries (same frame repeated, in inner stacks, repeated contexts; traceback folds > 3 repeats); "
+        "HISTORIES on one Stack object: every case observes all projections, runs a history (default: other-flag calls; 5 trees with "
+        "a context object whose repr can raise or park x 8 histories: failing capture_locals summary, abandoned "
+        "as_stdlib_summary_with_contexts iterator after 1/2/3 steps, other flags, a second thread parked mid-summary, combinations; "
+        "every third random tree: abandoned iterator) and observes again on the same object: both observations must be equal and "
+        "the later one is compared with the model; per tree all 8 (show_contexts, show_hidden_frames, capture_locals) summaries, the 4 "
         "as_stdlib_summary_with_contexts variants of its first frame and both format_flat variants. distinct = distinct descriptors; "
         "non-trivial = the summary with contexts differs from the plain frame series")
 CONFIG = dict(
@@ -56,6 +61,10 @@ def make_inputs(tier, seed):
         yield {"spec": sp}
     for sp in G.repeat_specials():
         yield {"spec": sp}
+    # histories on one object: the same projections after failing / abandoned / concurrent calls
+    for sp in G.bomb_trees():
+        for h in G.HISTORIES:
+            yield {"spec": sp, "hist": h}
     for i, c in enumerate(G.ctx_field_product()):
         if quick and (i + seed) % 6:
             continue
@@ -65,7 +74,10 @@ def make_inputs(tier, seed):
     for i in range(n):
         depth = 3 if quick else rng.choice([2, 3, 4])
         width = rng.choice([1, 2, 3]) if quick else rng.choice([1, 2, 3, 4])
-        yield {"spec": G.gen_stack(rng, depth, width, nl=rng.random() < 0.05)}
+        d = {"spec": G.gen_stack(rng, depth, width, nl=rng.random() < 0.05)}
+        if i % 3 == 0:
+            d["hist"] = [["abandon", rng.choice([1, 2, 3, 5])]] + ([["flags"]] if i % 2 else [])
+        yield d
 
 
 def _entry(fs):
@@ -76,7 +88,20 @@ def _entry(fs):
 
 
 def run_case(desc):
+    """All projections of one Stack object.  With desc["hist"]: first on the fresh object, then the
+    history (failing / abandoned / other-flag calls, or a second thread parked mid-summary), then
+    again on the SAME object; the later observation is what Coq compares with the model."""
     st = G.build(desc)
+    first = _observe(st)
+    log = []
+    with G.history(st, desc.get("hist", [["flags"]]), log):
+        obs = _observe(st)
+    obs["fresh_equal"] = (first == obs)
+    obs["log"] = log
+    return obs
+
+
+def _observe(st):
     obs = {"sums": [], "frame": [], "flat": []}
     for sc, sh, cl in COMBOS:
         sm = st.as_stdlib_summary(show_contexts=sc, show_hidden_frames=sh, capture_locals=cl)
@@ -116,6 +141,12 @@ def coq_case(desc, obs):
 
 
 def direct_oracle(desc, obs):
+    if not obs["fresh_equal"]:
+        return ("the projections of one Stack object changed after the history %r on it (summary / format_flat are not a "
+                "function of the tree alone: hidden state)" % (desc.get("hist", [["flags"]]),))
+    for l in obs["log"]:
+        if l in ("fail: no exception", "thread: never parked") or l.startswith("thread: raised"):
+            return "history step did not behave as the unchanged code does: " + l
     if obs["flat_default"] != obs["flat"][0][1]:
         return "format_flat() differs from format_flat(show_contexts=False)"
     return None
